@@ -91,7 +91,11 @@ func getFx() *fixtures {
 		delayByTime: true,
 	}
 	bscGen := func(v int) *bsctypes.Header {
-		return c09.Build(c09.Spec{Number: uint64(400 + 2*v), Signer: 0, Coinbase: -1, Diff: 2, List: []int{0}, Root: f.evmRoot})
+		list := []int{0}
+		if v == 1 {
+			list = []int{0, 1} // the later install announces a changed validator set: it (not the current set) must become the pending one
+		}
+		return c09.Build(c09.Spec{Number: uint64(400 + 2*v), Signer: 0, Coinbase: -1, Diff: 2, List: list, Root: f.evmRoot})
 	}
 	f.kits["bsc"] = kit{
 		install: func(v int) (exported.ClientState, exported.ConsensusState) {
